@@ -42,21 +42,25 @@ Lies == {[step |-> "none", field |-> "none"]}
 
 VARIABLES lz, lie, pc, stored, encSent, cKey, cSalt, sKey, sSalt,
           memKey,    \* the client object holds a computed key (confirmed or not)
+          fpSeen,    \* an offered fingerprint has matched the configured key in some attempt on this client object
           attempt    \* number of the connection attempt on this client object
-vars == <<lz, lie, pc, stored, encSent, cKey, cSalt, sKey, sSalt, memKey, attempt>>
+vars == <<lz, lie, pc, stored, encSent, cKey, cSalt, sKey, sSalt, memKey, fpSeen, attempt>>
 
 Init == /\ lz \in [Fields -> LZ] /\ lie \in Lies
         /\ pc = "start" /\ stored = FALSE /\ encSent = FALSE
         /\ cKey = "none" /\ cSalt = "none" /\ sKey = "none" /\ sSalt = "none"
-        /\ memKey = FALSE /\ attempt = 1
+        /\ memKey = FALSE /\ fpSeen = FALSE /\ attempt = 1
 
-\* the server lies (once) during the first attempt only
-Lying(step, field) == attempt = 1 /\ lie.step = step /\ lie.field = field
-Checks(step, field) == <<step, field>> \notin SkipCheck
-Abort == pc' = "aborted" /\ UNCHANGED <<lz, lie, stored, encSent, cKey, cSalt, sKey, sSalt, memKey, attempt>>
-Goto(p) == pc' = p /\ UNCHANGED <<lz, lie, stored, encSent, cKey, cSalt, sKey, sSalt, memKey, attempt>>
+\* the server lies at most once per attempt (`lie` is the lie of the current attempt)
+Lying(step, field) == lie.step = step /\ lie.field = field
+\* FingerprintCheckedOnce (seeded change C07_16): once an offered fingerprint has matched, later exchanges on the same client
+\* object no longer look at the fingerprints
+Checks(step, field) == /\ <<step, field>> \notin SkipCheck
+                       /\ ~("FingerprintCheckedOnce" \in Dev /\ step = "resPQ" /\ field = "fingerprints" /\ fpSeen)
+Abort == pc' = "aborted" /\ UNCHANGED <<lz, lie, stored, encSent, cKey, cSalt, sKey, sSalt, memKey, fpSeen, attempt>>
+Goto(p) == pc' = p /\ UNCHANGED <<lz, lie, stored, encSent, cKey, cSalt, sKey, sSalt, memKey, fpSeen, attempt>>
 \* g^ab computed: as coded the key goes into the client object at once (SetAuthKey), before the server confirmed it
-GotoKeyed(p) == pc' = p /\ memKey' = TRUE /\ UNCHANGED <<lz, lie, stored, encSent, cKey, cSalt, sKey, sSalt, attempt>>
+GotoKeyed(p) == pc' = p /\ memKey' = TRUE /\ UNCHANGED <<lz, lie, stored, encSent, cKey, cSalt, sKey, sSalt, fpSeen, attempt>>
 
 \* req_pq -> resPQ: nonce echoed, fingerprint offered
 RecvResPQ ==
@@ -64,7 +68,8 @@ RecvResPQ ==
   /\ IF \/ Lying("resPQ", "kind")
         \/ Lying("resPQ", "nonce") /\ Checks("resPQ", "nonce")
         \/ Lying("resPQ", "fingerprints") /\ Checks("resPQ", "fingerprints")
-       THEN Abort ELSE Goto("sentReqDH")
+       THEN Abort
+       ELSE pc' = "sentReqDH" /\ fpSeen' = TRUE /\ UNCHANGED <<lz, lie, stored, encSent, cKey, cSalt, sKey, sSalt, memKey, attempt>>
 
 \* req_DH_params carries RSA(p_q_inner_data); the server must be able to read it
 ServerReadsRSA == Conv("rsa", "RsaLeftAligned", lz) = Bytes("rsa", "fixed", lz)
@@ -103,24 +108,25 @@ RecvDHGen ==
         \/ ~Lying("dhGen", "new_nonce_hash") /\ ~HashOK
        THEN /\ pc' = "aborted" /\ UNCHANGED <<stored, cKey, cSalt>>
        ELSE /\ pc' = "done" /\ stored' = TRUE /\ cKey' = ClientKey /\ cSalt' = ClientSalt
-  /\ UNCHANGED <<lz, lie, encSent, memKey, attempt>>
+  /\ UNCHANGED <<lz, lie, encSent, memKey, fpSeen, attempt>>
 
-FirstRequest == pc = "done" /\ ~encSent /\ encSent' = TRUE /\ UNCHANGED <<lz, lie, pc, stored, cKey, cSalt, sKey, sSalt, memKey, attempt>>
+FirstRequest == pc = "done" /\ ~encSent /\ encSent' = TRUE /\ UNCHANGED <<lz, lie, pc, stored, cKey, cSalt, sKey, sSalt, memKey, fpSeen, attempt>>
 
-\* the application connects the same client object again; the server it reaches now is conformant and knows nothing of
-\* the abandoned exchange (the leading-zero classes of the new values are kept: they are independent of the attempt)
+\* the application connects the same client object again; the server it reaches now knows nothing of the abandoned
+\* exchange (the leading-zero classes of the new values are kept: they are independent of the attempt)
 Again ==
   /\ pc = "aborted" /\ attempt < MaxAttempts
   /\ attempt' = attempt + 1 /\ sKey' = "none" /\ sSalt' = "none"
+  /\ lie' \in Lies                  \* the server of the second attempt is conformant, or lies in its own way
   /\ pc' = IF "SkipExchangeWhenKeyInMemory" \in Dev /\ memKey THEN "unkeyed" ELSE "start"
-  /\ UNCHANGED <<lz, lie, stored, encSent, cKey, cSalt, memKey>>
+  /\ UNCHANGED <<lz, stored, encSent, cKey, cSalt, memKey, fpSeen>>
 
 Stutter == (pc = "aborted" /\ attempt >= MaxAttempts) \/ pc \in {"panicked", "unkeyed"} \/ (pc = "done" /\ encSent)
 Next == RecvResPQ \/ RecvDHParams \/ RecvDHGen \/ FirstRequest \/ Again \/ (Stutter /\ UNCHANGED vars)
 Spec == Init /\ [][Next]_vars /\ WF_vars(Next)
 
 (* ---- properties ---- *)
-Honest == lie.step = "none" \/ attempt > 1
+Honest == lie.step = "none"
 \* C06: with a conformant server the exchange completes and both sides hold the same key and salt,
 \* whatever the numeric values (leading zero bytes) drawn
 Agreement == pc = "done" /\ Honest => cKey = sKey /\ cSalt = sSalt
